@@ -9,6 +9,7 @@ import (
 	"go/types"
 	"os"
 	"unicode/utf8"
+	"unsafe"
 
 	"golang.org/x/tools/go/ssa"
 )
@@ -209,11 +210,11 @@ func (i *interpreter) store(T types.Type, addr value, v value) {
 				i.frozenWrite(name)
 			}
 		}
-		store(T, p, v)
+		i.storeRaw(T, p, v)
 		return
 	case *symptr:
 		k := i.concretize(p.idx, "store-index")
-		p.elems[k] = v
+		i.setCell(&p.elems[k], v)
 		return
 	}
 	panic(engineError(fmt.Sprintf("store through %T", addr)))
@@ -443,7 +444,11 @@ func callBuiltin(caller *frame, callpos token.Pos, fn *ssa.Builtin, args []value
 			return a0
 		}
 		if len(a0)+len(add) <= cap(a0) {
-			return append(a0, add...)
+			ext := a0[:len(a0)+len(add)]
+			for k := len(a0); k < len(ext); k++ {
+				i.setCell(&ext[k], add[k-len(a0)])
+			}
+			return ext
 		}
 		// grow exactly like the Go runtime for the target element size
 		esz := int64(8)
@@ -465,7 +470,19 @@ func callBuiltin(caller *frame, callpos token.Pos, fn *ssa.Builtin, args []value
 		} else {
 			src = args[1].([]value)
 		}
-		return copy(dst, src)
+		n := len(dst)
+		if len(src) < n {
+			n = len(src)
+		}
+		if n > 0 && &dst[0] != &src[0] {
+			// memmove semantics for overlapping ranges
+			tmp := make([]value, n)
+			copy(tmp, src[:n])
+			for k := 0; k < n; k++ {
+				i.setCell(&dst[k], tmp[k])
+			}
+		}
+		return n
 
 	case "close":
 		i.chanClose(args[0].(*vchan))
@@ -556,6 +573,54 @@ func callBuiltin(caller *frame, callpos token.Pos, fn *ssa.Builtin, args []value
 
 	case "ssa:deferstack":
 		return &caller.defers
+
+	// unsafe.String / StringData / Slice / SliceData (Go 1.20+), as used by
+	// strings.Builder and friends: modelled on the engine's aliasing views.
+	case "SliceData":
+		sl := args[0].([]value)
+		if cap(sl) == 0 {
+			return (*value)(nil)
+		}
+		return &sl[:1][0]
+	case "StringData":
+		return unsafePtr{aux: args[0]}
+	case "String":
+		n := int(i.concretize(args[1], "unsafe.String.len"))
+		if n == 0 {
+			return ""
+		}
+		if p, ok := args[0].(*value); ok {
+			// pointer to an element of a byte array/slice: the n cells from p
+			return &symstr{unsafe.Slice(p, n)}
+		}
+		up := args[0].(unsafePtr)
+		switch a := up.aux.(type) {
+		case []value:
+			return &symstr{a[:n:n]}
+		case string, *symstr:
+			return strSlice(a, 0, n)
+		}
+		panic(unsupported("unsafe.String of a non-slice pointer"))
+	case "Slice":
+		n := int(i.concretize(args[1], "unsafe.Slice.len"))
+		if p, ok := args[0].(*value); ok {
+			if p == nil {
+				return []value(nil)
+			}
+			return unsafe.Slice(p, n)
+		}
+		up := args[0].(unsafePtr)
+		switch a := up.aux.(type) {
+		case []value:
+			return a[:n:n]
+		case string, *symstr:
+			return strBytesView(a)[:n:n]
+		case nil:
+			if n == 0 {
+				return []value(nil)
+			}
+		}
+		panic(unsupported("unsafe.Slice of a non-slice pointer"))
 	}
 	panic(engineError("unknown built-in: " + fn.Name()))
 }
@@ -602,7 +667,8 @@ func (i *interpreter) checkSizeAgainstLimit(n value, where string) {
 	}
 	ok, m := i.feasible(over)
 	if ok {
-		i.reportViolation("alloc", "allocation may exceed the configured limit: "+where, m)
+		i.reportViolation("alloc", i.allocLabel, m)
+		i.violations[len(i.violations)-1].Where = where
 		// continue on the in-limit side
 		i.addPC(i.tc.Not(over))
 		if ok2, _ := i.feasible(i.tc.tt); !ok2 {
